@@ -652,6 +652,8 @@ PROPS["C12"]["xcheck"] = "c12"
 PROPS["C13"]["xcheck"] = "c13"
 PROPS["C15"]["xcheck"] = "c15"
 PROPS["C08"]["xcheck"] = "c08"
+PROPS["C05"]["xcheck"] = "c05"
+PROPS["C07"]["xcheck"] = "c07"
 
 _m("C17", "Proved for every value whose numbers are valid JSON numbers: outside K1 (integer syntax that is not i64/u64, incl. every "
           "exponent-without-fraction spelling) and K4 (an object whose FIRST key is serde_json's private number token) to_value(&v) "
